@@ -27,11 +27,16 @@ import Driver.OpsRedirect
 import Driver.OpsPrefork
 import Driver.OpsStreamC34
 import Driver.OpsTlsRoute
+import Driver.OpsHostPool
+import Driver.OpsCompressC22
+import Driver.OpsLockset
+import Driver.OpsServerCounters
+import Driver.OpsMultipartC35
 
 open Fh Fh.Driver
 
 def handlers : List (String → List Bytes → Option String) :=
-  [opsByteClass, opsIntCodec, opsPath, opsFs, opsArgs, opsHeader, opsConn, opsDateIP, opsFsPath, opsLB, opsPipe, opsCookie, opsDialer, opsWorkerPool, opsFsCache, opsRetry, opsURI, opsHeaderSet, opsAdaptor, opsRedirect, opsPrefork, opsStreamC34, opsTlsRoute]
+  [opsByteClass, opsIntCodec, opsPath, opsFs, opsArgs, opsHeader, opsConn, opsDateIP, opsFsPath, opsLB, opsPipe, opsCookie, opsDialer, opsWorkerPool, opsFsCache, opsRetry, opsURI, opsHeaderSet, opsAdaptor, opsRedirect, opsPrefork, opsStreamC34, opsTlsRoute, opsHostPool, opsCompressC22, opsLockset, opsServerCounters, opsMultipartC35]
 
 def dispatch (line : String) : String :=
   match (line.splitOn " ").filter (· ≠ "") with
